@@ -128,3 +128,17 @@ Definition S_dcf_cuts_legal : Prop := forall cwf k,
     nodes *)
 Definition S_dcf_of_ok : Prop := forall A (l : lender A),
   cwf_ok (dcf_of l) = true /\ nlen (dcf_of l) = nlen l + 1.
+
+(** ** All compositions *)
+(** every nesting of wrappers over every representation behaves, and its scan is the
+    structurally defined one *)
+Definition S_all_compositions : Prop := forall e,
+  lab_ok (denote e) /\ lb_iter (denote e) = gscan e.
+
+(** spelled out: parts, their number, and coverage, for every composition and every legal
+    cut sequence *)
+Definition S_split_exact : Prop := forall e cuts,
+  cuts_ok cuts (lb_n (denote e)) = true ->
+  lb_split (denote e) cuts = Parts (slices cuts (gscan e))
+  /\ length (slices cuts (gscan e)) = (length cuts - 1)%nat
+  /\ concat (slices cuts (gscan e)) = slice (hd 0 cuts) (last cuts 0) (gscan e).
